@@ -54,7 +54,7 @@ func Analyze(g *Grammar) *Analysis {
 				for _, k := range e.Kids {
 					v = v && a.Nullable[k.ID]
 				}
-			case Many1, SepBy1, SeqTry, SeqFOA, Memo, LTrim, RTrim:
+			case Many1, SepBy1, SeqTry, SeqFOA, Memo, LTrim, RTrim, SupErr, Single:
 				v = a.Nullable[e.Kids[0].ID]
 			}
 			if v {
@@ -78,7 +78,7 @@ func Analyze(g *Grammar) *Analysis {
 			for i, k := range e.Kids {
 				a.Edges = append(a.Edges, Edge{e.ID, k.ID, i < len(e.Kids)-1})
 			}
-		case Opt, Memo:
+		case Opt, Memo, SupErr, Single:
 			a.Edges = append(a.Edges, Edge{e.ID, e.Kids[0].ID, false})
 		case LTrim, RTrim:
 			a.HasTrim = true
